@@ -145,6 +145,7 @@ type FuncVC struct {
 	callOrd       map[string]int
 	firedGhosts   map[*GhostClause]bool
 	skippedKinds  map[string]int
+	stablePreds   map[string]bool
 	groundDefs    map[string]bool
 	pendingDefs   []string
 	marked        map[string]bool
